@@ -574,8 +574,16 @@ def program(draw, depth=4, ops=tuple(BIN), mat=False):
                 else ["attr", "O", d(st.sampled_from(("a", "b")))]
         if c == 16:
             m = d(st.sampled_from(tuple(CMP) + ("and_", "or_", "not_")))
-            recv = ["bin", "+", V(d(st.sampled_from(("x", "y")))), rec(depth - 1)] \
-                if d(st.booleans()) else V(d(st.sampled_from(("x", "y", "z"))))
+            rc = d(st.integers(0, 3))
+            if rc == 0:
+                recv = ["bin", "+", V(d(st.sampled_from(("x", "y")))), rec(depth - 1)]
+            elif rc == 1:
+                # a constructor method applied to the result of another one
+                inner = d(st.sampled_from(("not_", "not_", "eq", "and_", "lt")))
+                recv = ["meth", inner, V(d(st.sampled_from(("x", "y", "z")))),
+                        None if inner == "not_" else rec(depth - 1)]
+            else:
+                recv = V(d(st.sampled_from(("x", "y", "z"))))
             return ["meth", m, recv, None if m == "not_" else rec(depth - 1)]
         if c == 17:
             return [d(st.sampled_from(("fsum", "fprod"))),
